@@ -224,10 +224,24 @@ def job_decimal(vec):
                 ("fixed", {"decimal_separator": ds, "thousands_separator": ts})]
     if (ds, ts) == (".", ""):
         variants += [("excel", {}), ("ods", {})]
+    # "late": the separators are set after the field was declared (a D row may follow the F rows of a CID); what counts is
+    # the data format as it is when data are validated
+    variants += [(fmt + ":late", properties) for fmt, properties in variants[:2]]
     for fmt, properties in variants:
+        late = fmt.endswith(":late")
+        fmt = fmt.split(":")[0]
         length = str(len(cell)) if fmt == "fixed" else ""
-        field, failure = declare("DecimalFieldFormat", "f", False, length, rule, data_format(fmt, **properties))
-        what = "Decimal field (format %s, decimal separator %r, thousands separator %r, rule %r)" % (fmt, ds, ts, rule)
+        if late:
+            from cutplace import data
+            fresh = data.DataFormat(fmt)
+            field, failure = declare("DecimalFieldFormat", "f", False, length, rule, fresh)
+            for name, value in sorted(properties.items()):
+                fresh.set_property(name, value)
+            fresh.validate()
+        else:
+            field, failure = declare("DecimalFieldFormat", "f", False, length, rule, data_format(fmt, **properties))
+        what = "Decimal field (format %s, decimal separator %r, thousands separator %r%s, rule %r)" % (
+            fmt, ds, ts, " set after the field was declared" if late else "", rule)
         if field is None:
             problems.append("%s cannot be declared: %s" % (what, failure[1]))
             continue
@@ -326,6 +340,11 @@ def run(tier, report):
             report.add_tlc("%s (%s)" % (module[2:], cfg), result)
             for vec in result.by_tag("VEC"):
                 jobs.append((family, vec))
+    pinned = core.tlc("MCFieldDecimal", "FieldDecimal_pinned.cfg", expect_violation=True, coverage=False)
+    if pinned.violated != "DecimalMeansWhatItSays":
+        raise core.MachineryError("RefusesForeignPoint = FALSE (D41) gave no counterexample")
+    report.notes["expected_counterexamples"] = [{"cfg": "FieldDecimal_pinned.cfg", "violated": pinned.violated,
+                                                 "deviation": "D41 a '.' that is no separator of the data format is read as decimal point"}]
     if tier == "quick":
         # the date family is the largest: replay every mutation and every rejection, and a third of the plain acceptances
         rng = core.rng(2)
